@@ -52,6 +52,11 @@ fn plan_cmd(args: &[String]) {
     };
     let stdout = std::io::stdout();
     let mut out = std::io::BufWriter::new(stdout.lock());
+    let mut emit_meta = |map: MapMode, meta: &str, regs: &[prog::Reg], out: &mut dyn Write| {
+        let case = format!("plan map={} meta={} :: {}", map.name(), meta, prog::to_text(regs));
+        let obs = plan::observe(regs, map, &env);
+        writeln!(out, "{}\t{}", case, obs).unwrap();
+    };
     let mut emit = |map: MapMode, regs: &[prog::Reg], out: &mut dyn Write| {
         let case = format!("plan map={} :: {}", map.name(), prog::to_text(regs));
         let obs = plan::observe(regs, map, &env);
@@ -87,6 +92,22 @@ fn plan_cmd(args: &[String]) {
                     emit(MapMode::A, &regs, &mut out);
                     k += step;
                 }
+            }
+        }
+        "meta" => {
+            // C19: pairs (base, variant) of the same registration sequence; the driver compares the two REAL plans
+            let mut rng = Rng::new(seed.wrapping_mul(1_000_033).wrapping_add(si).wrapping_add(0xC19));
+            for k in 0..count {
+                let mut r = rng.fork();
+                let mut base = match r.below(4) { 0 => prog::gen_funnel(&mut r), 1 => prog::gen_chain(&mut r), _ => prog::gen_random(&mut r, false) };
+                prog::normalise_for_meta(&mut base);
+                let a = [1u32, 3, 7][r.below(3) as usize];
+                let b = r.below(40) as u32;
+                let variant = prog::meta_variant(&mut r, &base, a, b);
+                let m1 = [MapMode::A, MapMode::B, MapMode::C][r.below(3) as usize];
+                let m2 = [MapMode::A, MapMode::B, MapMode::C][r.below(3) as usize];
+                emit_meta(m1, &format!("{}a", k), &base, &mut out);
+                emit_meta(m2, &format!("{}b", k), &variant, &mut out);
             }
         }
         _ => {
